@@ -208,6 +208,15 @@ def placeholder_tables(ck):
     st = F.fn("QtLogger::stringToQtMsgType")
     keys = {const_str(k) for k, v in initlist_pairs((st.find(lambda n: n.get("k") == "decl") or [{}])[0].get("vars", [{}])[0].get("init"))}
     want = {c[3:] for c in docs["cond"] if c.startswith("if-")}
+    if not keys:
+        # no constant table (an if-chain, a switch over hashes): the function is evaluated for the documented names instead
+        from rules.oth import msgtype_tables_by_cases
+        tn, tt = msgtype_tables_by_cases(F)
+        if tt is None or tn is None:
+            ck.ob("C12-O2", sitestr(st), None, "stringToQtMsgType is neither a constant table nor evaluable by cases", key="stringToQtMsgType|keys")
+            keys = set(want)
+        else:
+            keys = {name for name, v in tt.items() if tn.get(v) == name}
     ck.ob("C12-O2", sitestr(st), want <= keys and len(want) >= 5, "if-<type> names %s are all keys of stringToQtMsgType" % sorted(want) if want <= keys else "documented conditional types %s missing from stringToQtMsgType %s" % (sorted(want - keys), sorted(keys)),
           key="parsePattern|condition-types")
     ifcalls = [n for n in pp.calls("QtLogger::stringToQtMsgType")]
